@@ -14,7 +14,7 @@ import (
 
 func init() {
 	registerEngine("I", []string{"I1", "I2"}, runEngineI)
-	registerEngine("J", []string{"J1"}, runEngineJ)
+	registerEngine("J", []string{"J1", "J2"}, runEngineJ)
 	registerEngine("L", []string{"L1", "L2", "L3"}, runEngineL)
 }
 
@@ -153,6 +153,8 @@ var unwrapSpecs = []unwrapSpec{
 	{"internal/sequencenumber.(*Unwrapper).Unwrap", 1, "internal/sequencenumber.Unwrapper.lastUnwrapped"},
 	{"fixtures/fx.(*GoodJ1).Unwrap", 1, "fixtures/fx.GoodJ1.last"},
 	{"fixtures/fx.(*BadJ1).Unwrap", 1, "fixtures/fx.BadJ1.last"},
+	{"fixtures/fx.(*GoodJ2).Unwrap", 1, "fixtures/fx.GoodJ2.last"},
+	{"fixtures/fx.(*BadJ2).Unwrap", 1, "fixtures/fx.BadJ2.last"},
 }
 
 // aff is a·i + b·L + c modulo 2^16, or ⊤.
@@ -190,6 +192,7 @@ func runEngineJ(p *Prog, o *obls) {
 			continue
 		}
 		j1(p, o, fn, spec)
+		j2(p, o, fn, spec)
 	}
 }
 
@@ -614,4 +617,221 @@ func onEveryPath(fn *ssa.Function, in ssa.Instruction) bool {
 		}
 	}
 	return true
+}
+
+// ---- J2: non-negativity of the unwrapped value by induction --------------------------------------------------------
+
+// linForm is Σ coef·atom + c over the integers (no wrap-around: the quantities are 64-bit sums of values below 2^17
+// plus the state, far from overflow — stated as an assumption). Atoms are either the previous state L (≥ 0 by the
+// induction hypothesis) or values of unsigned type (≥ 0).
+type linForm struct {
+	coef map[string]int64
+	c    int64
+}
+
+func (a linForm) add(b linForm, sign int64) linForm {
+	r := linForm{coef: map[string]int64{}, c: a.c + sign*b.c}
+	for k, v := range a.coef {
+		r.coef[k] += v
+	}
+	for k, v := range b.coef {
+		r.coef[k] += sign * v
+	}
+	for k, v := range r.coef {
+		if v == 0 {
+			delete(r.coef, k)
+		}
+	}
+	return r
+}
+
+func (a linForm) equal(b linForm) bool {
+	if a.c != b.c || len(a.coef) != len(b.coef) {
+		return false
+	}
+	for k, v := range a.coef {
+		if b.coef[k] != v {
+			return false
+		}
+	}
+	return true
+}
+
+func (a linForm) String() string {
+	var parts []string
+	for _, k := range sortedKeys(a.coef) {
+		parts = append(parts, fmt.Sprintf("%d·%s", a.coef[k], k))
+	}
+	parts = append(parts, fmt.Sprintf("%d", a.c))
+	return strings.Join(parts, " + ")
+}
+
+type altForm struct {
+	f   linForm
+	ctx *ssa.BasicBlock // block whose dominating facts apply to this alternative
+	ok  bool
+}
+
+type j2ctx struct {
+	p       *Prog
+	fn      *ssa.Function
+	isState func(ssa.Value) bool
+}
+
+func isUnsigned(t types.Type) bool {
+	b, ok := t.Underlying().(*types.Basic)
+	return ok && b.Info()&types.IsUnsigned != 0
+}
+
+// forms expands v into its alternatives (one per φ path), each a linear form with the block whose facts apply.
+func (j *j2ctx) forms(v ssa.Value, ctx *ssa.BasicBlock, depth int) []altForm {
+	bad := []altForm{{ok: false, ctx: ctx}}
+	if depth > 12 {
+		return bad
+	}
+	if isUnsigned(v.Type()) {
+		// any value of unsigned type is a non-negative integer
+		return []altForm{{f: linForm{coef: map[string]int64{"u:" + v.Name(): 1}}, ctx: ctx, ok: true}}
+	}
+	switch x := v.(type) {
+	case *ssa.Const:
+		if c, ok := constInt(x); ok {
+			return []altForm{{f: linForm{coef: map[string]int64{}, c: c}, ctx: ctx, ok: true}}
+		}
+	case *ssa.Convert:
+		if isUnsigned(x.X.Type()) {
+			return []altForm{{f: linForm{coef: map[string]int64{"u:" + x.X.Name(): 1}}, ctx: ctx, ok: true}}
+		}
+		return j.forms(x.X, ctx, depth+1)
+	case *ssa.UnOp:
+		if x.Op == token.MUL && j.isState(x.X) {
+			// the value last stored in this block, else the state on entry (if no store can reach this load)
+			b := x.Block()
+			for i := instrIndex(x) - 1; i >= 0; i-- {
+				if st, ok := b.Instrs[i].(*ssa.Store); ok && j.isState(st.Addr) {
+					return j.forms(st.Val, ctx, depth+1)
+				}
+			}
+			reached := false
+			instrsOf(j.fn, func(in ssa.Instruction) {
+				if st, ok := in.(*ssa.Store); ok && j.isState(st.Addr) && canReach(st, x) {
+					reached = true
+				}
+			})
+			if reached {
+				return bad
+			}
+			return []altForm{{f: linForm{coef: map[string]int64{"L": 1}}, ctx: ctx, ok: true}}
+		}
+	case *ssa.BinOp:
+		if x.Op != token.ADD && x.Op != token.SUB {
+			return bad
+		}
+		sign := int64(1)
+		if x.Op == token.SUB {
+			sign = -1
+		}
+		var out []altForm
+		for _, l := range j.forms(x.X, ctx, depth+1) {
+			for _, r := range j.forms(x.Y, ctx, depth+1) {
+				if !l.ok || !r.ok {
+					out = append(out, altForm{ok: false, ctx: ctx})
+					continue
+				}
+				// the more specific context (a φ edge's predecessor) wins
+				c := l.ctx
+				if r.ctx != ctx {
+					c = r.ctx
+				}
+				out = append(out, altForm{f: l.f.add(r.f, sign), ctx: c, ok: true})
+			}
+		}
+		return out
+	case *ssa.Phi:
+		var out []altForm
+		for i, e := range x.Edges {
+			out = append(out, j.forms(e, x.Block().Preds[i], depth+1)...)
+		}
+		return out
+	}
+	return bad
+}
+
+// nonNegative: the form is a non-negative combination of non-negative atoms, or a dominating branch says so.
+func (j *j2ctx) nonNegative(a altForm) (bool, string) {
+	if !a.ok {
+		return false, "not a linear expression over the input and the previous state"
+	}
+	pos := a.f.c >= 0
+	for _, v := range a.f.coef {
+		if v < 0 {
+			pos = false
+		}
+	}
+	if pos {
+		return true, ""
+	}
+	for _, f := range dominatingFacts(a.ctx) {
+		f = normFact(f)
+		bo, ok := f.cond.(*ssa.BinOp)
+		if !ok {
+			continue
+		}
+		// E >= 0 true, or E < 0 false
+		if !((bo.Op == token.GEQ && f.truth) || (bo.Op == token.LSS && !f.truth)) || !isConstInt(bo.Y, 0) {
+			continue
+		}
+		for _, g := range j.forms(bo.X, a.ctx, 0) {
+			if g.ok && g.f.equal(a.f) {
+				return true, ""
+			}
+		}
+	}
+	return false, "can be negative: " + a.f.String() + " with no dominating test that it is ≥ 0"
+}
+
+func j2(p *Prog, o *obls, fn *ssa.Function, spec unwrapSpec) {
+	j := &j2ctx{p: p, fn: fn, isState: func(addr ssa.Value) bool {
+		fa, ok := addr.(*ssa.FieldAddr)
+		return ok && fieldKeyAddr(fa) == spec.state
+	}}
+	var problems []string
+	n := 0
+	// the induction needs the state to be written by this function only
+	for _, f2 := range p.Funcs {
+		if f2 == fn || isConstructor(p, f2) {
+			continue
+		}
+		instrsOf(f2, func(in ssa.Instruction) {
+			if st, ok := in.(*ssa.Store); ok && j.isState(st.Addr) && sharedBase(p, f2, st.Addr.(*ssa.FieldAddr).X) {
+				problems = append(problems, fmt.Sprintf("the state is also written at %s (in %s): the induction hypothesis does not hold", p.instrPos(st), funcKey(f2)))
+			}
+		})
+	}
+	check := func(v ssa.Value, at ssa.Instruction, what string) {
+		for _, a := range j.forms(v, at.Block(), 0) {
+			n++
+			if ok, why := j.nonNegative(a); !ok {
+				problems = append(problems, fmt.Sprintf("%s at %s %s", what, p.instrPos(at), why))
+			}
+		}
+	}
+	instrsOf(fn, func(in ssa.Instruction) {
+		switch x := in.(type) {
+		case *ssa.Store:
+			if j.isState(x.Addr) {
+				check(x.Val, x, "the state stored")
+			}
+		case *ssa.Return:
+			if x.Block() != fn.Recover && len(x.Results) > 0 {
+				check(x.Results[0], x, "the value returned")
+			}
+		}
+	})
+	key := funcKey(fn)
+	if len(problems) > 0 {
+		o.bad("J2", key, p.Pos(fn.Pos()), strings.Join(dedupe(problems), "; "))
+	} else {
+		o.ok("J2", key, p.Pos(fn.Pos()), fmt.Sprintf("induction on the state: assuming the previous result L ≥ 0, all %d path alternatives of the stored state and of the returned value are non-negative (sum of non-negative terms, or guarded by a dominating `… >= 0` test of exactly that linear expression)", n))
+	}
 }
